@@ -19,6 +19,7 @@ Fac(e, m) == [e |-> e, m |-> m, num |-> FALSE, ival |-> -1]
 LitFac(e, num, ival) == [e |-> e, m |-> "literal", num |-> num, ival |-> ival]
 Exprs(t) == {t[i].e : i \in DOMAIN t}           \* identity of a term
 ExprSeq(t) == [i \in DOMAIN t |-> t[i].e]
+NonLitExprs(t) == {t[i].e : i \in {j \in DOMAIN t : t[j].m # "literal"}}
 
 RECURSIVE DedupFactors(_, _)
 DedupFactors(fs, seen) ==
